@@ -7,7 +7,7 @@
 (*       or one attribute value.                                                           *)
 EXTENDS Integers, Sequences, FiniteSets, TLC
 
-CONSTANTS Which, MaxLen, SmallLen, TinyLen, AsBuilt
+CONSTANTS Which, MaxLen, SmallLen, TinyLen, TailLen, AsBuilt
 Has(f) == f \in AsBuilt
 Failed(gs) == {g[1] : g \in {x \in gs : ~x[2]}}
 SeqToSet(s) == {s[i] : i \in DOMAIN s}
@@ -35,7 +35,13 @@ Small == {"slash", "backslash", "dot", "host", "qmark", "hash"}
 \* ... and longer still over the four classes that interact in dot-segment removal ("/#/../\\" needs seven)
 Tiny == {"slash", "backslash", "dot", "hash"}
 SmallSeqs == UNION {[1..k -> Small] : k \in 1..SmallLen} \cup UNION {[1..k -> Tiny] : k \in 1..TinyLen}
+\* ... and a query whose text looks like path segments behind a path that must not survive: Redirect leaves a query alone,
+\* so nothing in it may "cancel" what stands before the "?"
+BadPaths == {<<"slash", "backslash">>, <<"slash", "backslash", "host">>, <<"slash", "backslash", "host", "slash">>,
+             <<"slash", "dot", "slash", "backslash", "host">>, <<"slash", "tab", "slash", "host">>, <<"slash", "host">>}
+QueryTails == UNION {[1..k -> {"slash", "dot", "host"}] : k \in 0..TailLen}
 InC17(r) == \/ \E s \in SeqsUpTo(MaxLen) \cup SmallSeqs : r = [handler |-> "login", dest |-> s]
+            \/ \E p \in BadPaths, t \in QueryTails : r = [handler |-> "login", dest |-> p \o <<"qmark">> \o t]
             \/ \E h \in RedirectingHandlers, s \in SeqsUpTo(2) : r = [handler |-> h, dest |-> s]
             \/ \E h \in RedirectingHandlers, p \in Prefixes, t \in SeqsUpTo(1) \cup {<<>>} :
                  r = [handler |-> h, dest |-> p \o <<"host">> \o t]
@@ -69,7 +75,8 @@ Normalised(s) == IF Len(s) >= 1 /\ s[1] = "slash" /\ ~(Len(s) >= 2 /\ s[2] = "sl
 \* the filter of the handler: which destinations it keeps.  The statement's predicate has to hold for what the
 \* browser RECEIVES, so the filter must be closed under the normalisation
 HasIn(s, c) == \E i \in 1..Len(s) : s[i] = c
-Keeps(s) == IF Has("FilterChecksPrefixOnly") THEN SafeDest(s)                                  \* as built before the second repair
+Keeps(s) == IF Has("FilterCleansQueryToo") THEN SafeDest(s) /\ ~(LET c == CleanPath(s) IN Len(c) >= 2 /\ c[2] = "backslash")   \* judges a form that is never sent
+            ELSE IF Has("FilterChecksPrefixOnly") THEN SafeDest(s)                                  \* as built before the second repair
             ELSE IF Has("FilterCutsAtHash") THEN SafeDest(s) /\ ~HasIn(PathPartHash(s), "backslash")   \* ... before the third
             ELSE SafeDest(s) /\ ~HasIn(PathPart(s), "backslash")
 
